@@ -105,7 +105,7 @@ package pogreb
 //@   ensures key: forall j int :: 0 <= j && j < len(key) ==> data[6+j] == key[j]
 //@   ensures value: forall j int :: 0 <= j && j < len(value) ==> data[6+len(key)+j] == value[j]
 //@   ensures crc: le32(contents(data), off(data)+len(data)-4) == crc(contents(data), off(data), len(data)-4)
-//@   at call PutUint32@2: assert checksum-of-prefix: len(data) == 10 + len(key) + len(value) && checksum == crc(contents(data), off(data), len(data)-4)
+//@   at call PutUint32@2: hint checksum-of-prefix: len(data) == 10 + len(key) + len(value) && checksum == crc(contents(data), off(data), len(data)-4)
 //@   flag lossless
 
 // ---- file.go --------------------------------------------------------------------------------
@@ -180,3 +180,8 @@ package pogreb
 //@   at alloc@1: assert [C19] record-buffer: int64(size) <= fLen[fidOf[it.r]] - int64(old(it.offset))
 //@   modifies it.offset, hPos[it.r], it.buf[*]
 
+
+// The package logger is set at package initialisation and SetLogger ignores nil: it is never nil.
+// Assumed (not proved) at the entry of every function under contract and listed in the evidence;
+// without it a harmless added log line would fail a receiver-not-nil obligation.
+//@ globalinv logger-set: logger != nil
